@@ -21,7 +21,11 @@ func main() {
 		for i, a := range s.Actions {
 			acts[i] = a.String()
 		}
-		w.Emit("script", hx.Case{ID: id, Coq: tdcx.CaseCoq(s, obs, f),
+		fkey := ""
+		if f.IdleRearm {
+			fkey = "idle-rearm-with-outstanding"
+		}
+		w.Emit("script", hx.Case{ID: id, FKey: fkey, Coq: tdcx.CaseCoq(s, obs, f),
 			Desc: map[string]any{"tcp": s.TCP, "maxcq": s.MaxCq, "nq0": s.Nq0, "actions": acts, "blocked": f.Blocked,
 				"reserved": f.Reserved, "queued": f.Queued, "closed": f.Closed}})
 		w.Tally("actions", len(s.Actions))
